@@ -445,7 +445,7 @@ fn c04_idle_holders(rng: &mut Rng, thorough: bool) -> Spec {
     spec.params = params_from(&cfg);
     spec.family = "capacity/idle_holders".into();
     add_final_probes(&mut spec, &cfg, rng);
-    spec.oracles = vec!["c04_bound".into(), "c04_capacity".into(), "liveness".into()];
+    spec.oracles = vec!["c04_bound".into(), "c04_capacity".into(), "c04_usable".into(), "liveness".into()];
     spec
 }
 
@@ -505,7 +505,7 @@ pub fn c04(rng: &mut Rng, thorough: bool, idx: u64) -> Spec {
         spec.end.calm_ms = 20_000;
     }
     add_final_probes(&mut spec, &cfg, rng);
-    spec.oracles = vec!["c04_bound".into(), "c04_capacity".into(), "liveness".into()];
+    spec.oracles = vec!["c04_bound".into(), "c04_capacity".into(), "c04_usable".into(), "liveness".into()];
     spec
 }
 
